@@ -136,9 +136,13 @@ func (e *enc) call(x *ssa.Call) {
 		return
 	}
 	key := callee.Pkg.Pkg.Path() + "." + funcKey(callee)
+	var inlineCt *Contract
 	if ct, ok := e.ss.Contracts[key]; ok {
-		e.modularCall(x, callee, ct, args)
-		return
+		if !ct.Inline {
+			e.modularCall(x, callee, ct, args)
+			return
+		}
+		inlineCt = ct
 	}
 	// inline
 	rec := false
@@ -152,6 +156,7 @@ func (e *enc) call(x *ssa.Call) {
 		n += len(b.Instrs)
 	}
 	if !rec && fr.depth < inlineMaxDepth && n <= inlineMaxInstrs {
+		e.inlineCt = inlineCt
 		e.inline(x, callee, c.Args, args, bindings)
 		return
 	}
@@ -219,6 +224,8 @@ func (e *enc) inline(x *ssa.Call, callee *ssa.Function, argVals []ssa.Value, arg
 	fr := e.fr
 	e.inlined[fnFull(callee)] = true
 	fr2 := newFrame(callee, fr)
+	fr2.contract = e.inlineCt // loop invariants of a contract marked `inline`
+	e.inlineCt = nil
 	fr2.prefix = fr.prefix + "inl@" + fnFull(callee) + "/"
 	for i, p := range callee.Params {
 		if i >= len(args) {
